@@ -57,6 +57,20 @@ Theorem C20_combos_exact : forall groups size ms2 cf kf tf,
   exists out, combinations groups size ms2 cf kf tf = Some out /\ combos_spec groups size ms2 cf kf tf out.
 Proof. exact combos_exact. Qed.
 
+(* The two templates, for all groups whose columns lie in 0..keys-1 (keys >= 1): template_jacks reports exactly
+   the jacks of the requested length (same column, no hold tail), template_chord_stream exactly the pairs from
+   consecutive chords of the requested sizes (not in one column unless include_jack, no hold tail), as pairs. *)
+Theorem C20_template_jacks_exact : forall groups minlen keys,
+  2 <= minlen -> cols_within keys groups ->
+  exists out, template_jacks groups minlen keys = Some out /\ jacks_spec groups (Z.to_nat minlen) keys out.
+Proof. exact template_jacks_exact. Qed.
+
+Theorem C20_template_chord_stream_exact : forall groups p s keys al ij,
+  (ij = false -> cols_within keys groups) ->
+  exists out, template_chord_stream groups p s keys al ij = Some out /\
+              chord_stream_spec groups p s keys al ij out.
+Proof. exact template_chord_stream_exact. Qed.
+
 (* History: before commit 1bc6769 PtnFilterChord.filter was numpy's element-wise `data in self.ar`.  Of that
    OLD variant of the model the statement is FALSE (witness: chord sizes (2,1) let through by [[2,2]]), also
    through the chord-stream template; what it computed instead is characterised exactly. *)
